@@ -563,6 +563,39 @@ theorem allOnce (hgi : cfg.guardInit = true) : ∀ n, AllOnce cfg n
       dFind := ostep_dFind ih
       dLoop := ostep_dLoop ih }
 
+theorem once_load (hgi : cfg.guardInit = true) (fuel : Nat) (name : Name) : SpecO cfg (load fuel cfg name) := by
+  intro s hs
+  unfold load
+  simp only [wp_bind]
+  refine wp_mono ((allOnce hgi fuel).loadEntry cfg.via name s hs) ?_ (fun _ h => h)
+  intro e s1 hs1
+  match e with
+  | none =>
+    simp only [wp_bind]
+    refine wp_mono (once_setEntry hs1 cfg.via (keyOf name) none) ?_ (fun _ h => h)
+    intro _ s2 hs2
+    exact hs2.1
+  | some none => exact hs1
+  | some (some d) => exact hs1
+
+theorem once_loadS (hgi : cfg.guardInit = true) (fuel : Nat) (s : St) (name : Name) (hs : InvOnce cfg s) :
+    InvOnce cfg (loadS fuel cfg s name).2 := by
+  have h := once_load hgi fuel name s hs
+  unfold wp at h
+  unfold loadS
+  cases hx : load fuel cfg name s with
+  | ok a s' => rw [hx] at h; exact h
+  | fail e s' => rw [hx] at h; exact h
+
+theorem once_runLoads (hgi : cfg.guardInit = true) (fuel : Nat) :
+    ∀ (names : List Name) (s : St), InvOnce cfg s → InvOnce cfg (runLoads fuel cfg s names).2
+  | [], s, hs => hs
+  | n :: ns, s, hs => by
+    simp only [runLoads]
+    exact once_runLoads hgi fuel ns _ (once_loadS hgi fuel s n hs)
+
+theorem once_init : InvOnce cfg {} := ⟨fun _ => Nat.zero_le _, fun _ _ _ _ _ => rfl⟩
+
 end
 
 end Pcore.Files
